@@ -1393,4 +1393,102 @@ Proof.
     exact (sinv_clear_exact (set_tags st ts1) n x H2 Tx Hex).
 Qed.
 
+
+(* ---------------------------------------------------------------- every action, every history *)
+Definition act_ok_all (st : state) (a : action) : Prop := act_ok6 st a /\ act_ok_api st a.
+
+Theorem sinv_step k p a st : repaired_c06 k -> act_ok_all st a -> Sinv st -> Sinv (step k p a st).
+Proof.
+  intros K (O1 & O2) H.
+  destruct a; try (apply sinv_step_jobs; [exact K|exact I|exact O1|exact H]);
+    apply (sinv_step_api k p _ st O2 H).
+Qed.
+
+Fixpoint acts_ok_all (k : kf) (st : state) (l : list (N * action)) : Prop :=
+  match l with
+  | [] => True
+  | (p, a) :: r => act_ok_all st a /\ acts_ok_all k (step k p a st) r
+  end.
+
+Lemma sinv_init cs : Sinv (init cs).
+Proof.
+  split; [|split; [reflexivity|split; [|split; [|split]]]].
+  - simpl. repeat split; discriminate.
+  - simpl. repeat split; intros k' t' HI; repeat (destruct HI as [HI|HI]; [inversion HI; subst; reflexivity|]); destruct HI.
+  - intros n t HI L. simpl in HI. repeat (destruct HI as [HI|HI]; [inversion HI; subst; discriminate|]). destruct HI.
+  - intros j Hj. discriminate.
+  - intros n r Hj. discriminate.
+Qed.
+
+Lemma sinv_run k l : forall st, repaired_c06 k -> acts_ok_all k st l -> Sinv st -> Sinv (run k l st).
+Proof.
+  unfold run. induction l as [|[p a] l IH]; simpl; intros st K Hok H; [exact H|].
+  destruct Hok as [H1 H2]. apply IH; [exact K|exact H2|]. apply sinv_step; assumption.
+Qed.
+
+(* what the invariant says about a tag that is looked up *)
+Lemma sinv_decided st n t : Sinv st -> tget n (tags st) = Some t ->
+  forall id, id < next st -> mem id (t_u t) = false -> mem id (t_m t) = tv (hist st) (tags st) n id.
+Proof. intros (HI & _) T id Hid Hu. eapply inv_lookup; eassumption. Qed.
+
 End C06.
+
+(* ================================================================ a concrete environment: the hypotheses are
+   satisfiable, and the two historical defects are violations of the invariant on the faithful model *)
+Definition wset (i : N) : N := match i with 1 => 1 | 2 => 3 | _ => 0 end.
+
+(* id-only definitions 1 and 2 denote {0} and {0,1}; every definition additionally requires all its main
+   references (`tag:x ...`) *)
+Definition truth_w (h : list iresp) (d : defn) (rho : N -> N -> bool) (id : N) : bool :=
+  (if d_idonly d then mem id (wset (d_id d)) else true) && forallb (fun x => rho x id) (d_main d).
+
+Lemma truth_w_ext : forall h d rho rho' id,
+  (forall x, In x (d_main d) -> rho x id = rho' x id) ->
+  (forall x, In x (d_subt d) -> forall j, j < hnext h -> rho x j = rho' x j) ->
+  truth_w h d rho id = truth_w h d rho' id.
+Proof.
+  intros h d rho rho' id H _. unfold truth_w. f_equal.
+  induction (d_main d) as [|x l IH]; [reflexivity|]. simpl. rewrite (H x (or_introl eq_refl)), IH; [reflexivity|].
+  intros; apply H; right; assumption.
+Qed.
+
+Lemma truth_w_local : forall r h d rho id,
+  d_sub d = false -> mem id (ir_add r) = false ->
+  (d_idonly d = true \/ (mem id (ir_rst r) = false /\ (d_datatime d = false \/ mem id (ir_upd r) = false))) ->
+  truth_w (r :: h) d rho id = truth_w h d rho id.
+Proof. reflexivity. Qed.
+
+Definition bad_decided (st : state) (n id : N) : bool :=
+  match tget n (tags st) with
+  | Some t => negb (mem id (t_u t)) && negb (Bool.eqb (mem id (t_m t)) (tv truth_w (hist st) (tags st) n id))
+  | None => false
+  end.
+
+Definition d_markm : defn := mkDef 1 true false false false [] [] true.    (* mark/m = id:0 *)
+Definition d_taga : defn := mkDef 3 false false false false [0] [] false.   (* tag/a = mark:m sport:4321 *)
+Definition d_ids01 : defn := mkDef 2 true false false false [] [] false.    (* tag/b = id:0,1 *)
+
+(* tag/a is being evaluated (snapshot mark/m = {0}), stream 1 is marked, the job publishes *)
+Definition w_lost : list (N * action) :=
+  [(3, AImport [0]); (3, ABodyImport (mkIresp 1 0 0 3 2 [3])); (3, AComplete JImport);
+   (3, AAddTag 0 d_markm 1); (3, AAddTag 3 d_taga 0); (3, ABodyTag [(3, 1)]);
+   (3, AMarkAdd 0 [1] 2); (3, AComplete JTag)].
+
+(* tag/b = id:0,1 is decided while only stream 0 exists; an import adds stream 1 *)
+Definition w_idonly : list (N * action) :=
+  [(4, AImport [0]); (4, ABodyImport (mkIresp 1 0 0 1 1 [1])); (4, AComplete JImport);
+   (4, AAddTag 4 d_ids01 0); (4, ABodyTag [(4, 3)]); (4, AComplete JTag);
+   (4, AImport [1]); (4, ABodyImport (mkIresp 1 0 0 2 2 [2])); (4, AComplete JImport)].
+
+(* the two environment hypotheses as predicates on a truth function (used by props/C06.v) *)
+Definition env_ext (truth : list iresp -> defn -> (N -> N -> bool) -> N -> bool) : Prop :=
+  forall h d rho rho' id,
+    (forall x, In x (d_main d) -> rho x id = rho' x id) ->
+    (forall x, In x (d_subt d) -> forall j, j < hnext h -> rho x j = rho' x j) ->
+    truth h d rho id = truth h d rho' id.
+
+Definition env_local (truth : list iresp -> defn -> (N -> N -> bool) -> N -> bool) : Prop :=
+  forall r h d rho id,
+    d_sub d = false -> mem id (ir_add r) = false ->
+    (d_idonly d = true \/ (mem id (ir_rst r) = false /\ (d_datatime d = false \/ mem id (ir_upd r) = false))) ->
+    truth (r :: h) d rho id = truth h d rho id.
